@@ -4,6 +4,10 @@ import json, os
 ROOT = os.path.dirname(os.path.dirname(os.path.abspath(__file__)))
 TECH = "bounded symbolic execution of go/ssa + SMT (z3; cvc5 cross-check in thorough), native replay of counterexamples"
 claimed = {
+ "C08": dict(level="ValidSequenceNumber decided against the RFC 7641 §3.4 formula on its full domain (all uint32 pairs, all instants); the observation's accept/reject step decided from an arbitrary state (inductive step: state is exactly last accepted sequence + time); registration code, routing by token, cancellation and failed registration decided on a two-observation harness with all 2^16 answer codes.",
+             note="Trusted: gosym encoder (native witnesses with injected clock), z3/cvc5, time.Time modelled as int64 ns. Concurrent Handle/Cancel and end-to-end Conn wiring outside.", ref="DESIGN.md §4 C08"),
+ "C18": dict(level="Bounded symbolic model checking of inactivity.Monitor and KeepAlive wired as the library wires them: every history of up to 4/5 (quick) or 7 (thorough) events {message, tick, pong for any earlier ping} with symbolic non-decreasing times, symbolic period and retry limit, against an event-counting oracle written from the statement.",
+             note="Trusted: gosym encoder, z3/cvc5, int64-ns time model. Known finding C18-message-does-not-reset-count reported as KNOWN-FINDING. Connection/server tick wiring outside.", ref="DESIGN.md §4 C18"),
  "C02": dict(level="Differential bounded symbolic model checking: the real datagram/stream decoders (and the pooled-message path incl. recycled capacities) run on every byte string up to the stated lengths together with an RFC reference parser written in the harness; the solver refutes any disagreement in accept/reject or in any decoded field, any panic, any non-termination within the step bound, any failure to re-encode/re-decode, and aliasing of the receive buffer.",
              note="Trusted: gosym encoder (native path witnesses on every run), z3/cvc5, the harness reference parser. Lengths beyond the bound are outside.", ref="DESIGN.md §4 C02"),
  "C01": dict(level="Bounded symbolic model checking of the real udp/tcp coders: header lemmas on their full domain (every delta/length/extension class, every uint32, every stream length class), whole-message encode->decode round trip, Size/Encode agreement and short-buffer behaviour with symbolic option numbers, values, token, payload, code, type, MID; refusal of out-of-domain token/type/MID. Bounds on option count and byte lengths are stated in evidence.",
